@@ -8,6 +8,7 @@ import sys
 from .. import common, pipeline, reflex
 
 ID = "C06"
+LEVEL = "fault_enumeration"
 RULE = ("6 valid base modules x every character offset outside comments and outside the interior of quoted/bracket "
         "arguments x 10 fault kinds (stray quote, backslash+alnum, backslash at EOF, unterminated '#[[' / '#[=[', extra "
         "'(' / ')', deleted '(' / ')', bare word), singly and (thorough) in pairs; a mutant is judged only if the "
